@@ -176,12 +176,16 @@ Batch(r, b) ==
 Ctl(p, c, b, pd, rt) == [pc |-> p, cur |-> c, bstart |-> b, pend |-> pd, ret |-> rt]
 Done == Ctl("ret", "none", 0, NoPend, "ok")
 
+\* appendNewHeaders polls the context before every batch: with a cancelled
+\* context (cfg.cx = 1) a region that exists fails before its first batch.
 GoNew(b) ==
   IF ~reg.nEx \/ Batch("new", b).eof THEN Done
+  ELSE IF cfg.cx = 1 THEN Ctl("ret", "new", b, NoPend, "err")
   ELSE IF Batch("new", b).bad THEN Ctl("ret", "new", b, NoPend, "err")
   ELSE Ctl("writeB", "new", b, Batch("new", b), ret)
 GoDiv(b) ==
   IF Batch("div", b).eof THEN GoNew(reg.nS)
+  ELSE IF cfg.cx = 1 THEN Ctl("ret", "div", b, NoPend, "err")
   ELSE IF Batch("div", b).bad THEN Ctl("ret", "div", b, NoPend, "err")
   ELSE Ctl("writeB", "div", b, Batch("div", b), ret)
 GoOn(b) == IF cur = "div" THEN GoDiv(b) ELSE GoNew(b)
@@ -244,13 +248,20 @@ Cont ==
 ValB ==
   /\ pc = "valb"
   /\ Stage("ValB",
+           \* a cancelled context makes Validate return nil after reading
+           \* the first batch: nothing is validated
+           cfg.cx = 1 \/
            ~(/\ cfg.kind \in {"pow", "bits", "time", "link"}
              /\ \/ cfg.x > cfg.s
                 \/ (cfg.kind = "pow" /\ Min2(cfg.bs, cfg.n) = 1)
                 \/ (FixFirstHeader /\ cfg.s > 0 /\ ReadP(bfile, cfg.s - 1) # NF)),
            "valf")
 
-ValF == pc = "valf" /\ Stage("ValF", TRUE, "regions")
+\* filter_headers_validator.go: every header of the file is compared with the
+\* target network's hard-coded filter-header checkpoint of its height, if any.
+ValF ==
+  /\ pc = "valf"
+  /\ Stage("ValF", cfg.cx = 1 \/ cfg.ck = NF \/ FileF(cfg, cfg.ck) = cfg.ck, "regions")
 
 Regions ==
   /\ pc = "regions"
@@ -439,17 +450,24 @@ Init ==
      \E hF \in {hB, hB - 1, hB - 2, hB + 1} \cap (0..MaxH) :
      \E kind \in Kinds, fk \in FKinds :
      \E x \in (IF kind = "none" THEN {NF} ELSE s..(s + n - 1)),
-        fy \in {NF} \cup (s..(s + n - 1)) :
+        fy \in {NF} \cup (s..(s + n - 1)),
+        ck \in {NF} \cup (s..(s + n - 1)), cx \in {0, 1} :
        /\ s + n - 1 <= MaxH
        /\ cfg = [s |-> s, n |-> n, bs |-> bs, hB |-> hB, hF |-> hF,
-                 x |-> x, kind |-> kind, fy |-> fy, fk |-> fk]
+                 x |-> x, kind |-> kind, fy |-> fy, fk |-> fk, ck |-> ck, cx |-> cx]
        /\ Anom(cfg) <= MaxAnom
        /\ (kind # "none" => fy = NF)      \* the whole filter file already differs from x on
        \* configurations that fail before the file's headers are looked at
        \* (file-level damage, a gap, an unreadable filter tip) are not
        \* multiplied with the deviations of the headers
-       /\ (fk # "none" \/ s > Min2(hB, hF) + 1 \/ hF > hB) => (kind = "none" /\ fy = NF)
-       /\ nf = IF Anom(cfg) < MaxAnom THEN MaxFaults ELSE 0
+       /\ (fk # "none" \/ s > Min2(hB, hF) + 1 \/ hF > hB)
+             => (kind = "none" /\ fy = NF /\ ck = NF /\ cx = 0)
+       \* a checkpoint matters for filter headers only: block-header kinds that
+       \* fail in ValB are not multiplied with it
+       /\ (ck # NF => (kind \in {"none", "fork"} /\ cx = 0))
+       /\ (cx = 1 => fy = NF)
+       \* faults are not multiplied with checkpoints / a cancelled context
+       /\ nf = IF Anom(cfg) < MaxAnom /\ cx = 0 /\ ck = NF THEN MaxFaults ELSE 0
   /\ bfile = [p \in 1..(cfg.hB + 1) |-> p - 1]
   /\ ffile = [p \in 1..(cfg.hF + 1) |-> p - 1]
   /\ idx = {<<h, h>> : h \in 0..cfg.hB}
